@@ -25,7 +25,7 @@ ASSUMPTIONS = ["own class-level custom= replaces (does not merge with) inherited
 ANCHORS = ['convert:make_converter', 'convert:ConverterHandlers.make', 'convert:ConverterHandlers._process', 'classes:PaneConverter.__init__',
            'classes:PaneBase.__init_subclass__', 'convert:from_data', 'convert:into_data']
 MIN_COUNTERS = {'quick': {'configurations': 6000, 'from_data_leaves': 6000, 'into_data_leaves': 4000, 'deferrals': 800,
-                          'exact_type_rule_checks': 300, 'writer_handler_checks': 1500, 'classes_built_with_handlers': 3000}}
+                          'exact_type_rule_checks': 300, 'writer_handler_checks': 1500, 'strict_converter_union_checks': 300, 'classes_built_with_handlers': 3000}}
 
 
 class Stamp:
@@ -494,6 +494,37 @@ def run(ctx):
                 return
 
     drive.for_each_case(ctx, 'writers', 30, body_writers, gen=lambda c, r: Ty('int'))
+
+    # a STRICT converter (one that reads only its own data form and so refuses the typed value it produced - the style of the
+    # documentation's examples) still serialises through unions: no member "recognises" the typed value, and the union's fallback must
+    # keep the handlers, for builtin scalars too
+    def body_strict_unions(i, rng, ty, T):
+        conv = ScaleConv()
+        level = rng.choice(('call', 'class'))
+        shape = rng.choice(('optional', 'union-str-first', 'union-int-first', 'list-of-optional', 'dict-of-union', 'plain', 'list'))
+        FT = {'optional': t.Optional[int], 'union-str-first': t.Union[str, int], 'union-int-first': t.Union[int, str], 'list-of-optional': t.List[t.Optional[int]],
+              'dict-of-union': t.Dict[str, t.Union[None, int]], 'plain': int, 'list': t.List[int]}[shape]
+        typed = {'list-of-optional': [5, None, 7], 'dict-of-union': {'a': 5, 'b': None}, 'list': [5, 7]}.get(shape, 5)
+        data = {'list-of-optional': [51, None, 71], 'dict-of-union': {'a': 51, 'b': None}, 'list': [51, 71]}.get(shape, 51)
+        custom = {int: conv}
+        if level == 'call':
+            out = observe(env.into_data, typed, FT, custom=custom)
+            back = observe(env.from_data, data, FT, custom=custom)
+            want_out, want_back = data, typed
+        else:
+            H = type(f"SU{next(_serial)}", (env.PaneBase,), {'__annotations__': {'plain': int, 'f': FT}, '__module__': __name__}, custom=custom)
+            x = H.make_unchecked(3, typed)
+            out = observe(x.into_data)
+            back = observe(H.from_data, {'plain': 31, 'f': data})
+            want_out, want_back = {'plain': 31, 'f': data}, x
+        ctx.count('strict_converter_union_checks')
+        ctx.case(('strict-unions', level, shape, out.kind, back.kind), nontrivial=True)
+        if out.kind != 'value' or out.val != want_out or back.kind != 'value' or back.val != want_back:
+            ctx.violation('precedence', 'strict-unions', i, {'handler_level': level, 'field_type': short(FT, 80), 'typed_value': short(typed), 'into_data': out.brief()[:200],
+                                                             'expected_data': short(want_out), 'from_data': back.brief()[:200]},
+                          mech=f"strict-converter-lost-through-union:{'out' if out.kind != 'value' or out.val != want_out else 'in'}")
+
+    drive.for_each_case(ctx, 'strict-unions', 40, body_strict_unions, gen=lambda c, r: Ty('int'))
 
     # the mapping form matches only the exact unparameterised type
     def body_exact(i, rng, ty, T):
